@@ -468,7 +468,7 @@ func main() {
 	startup.Known, startup.KnownClass = "c03_startup_known", "startup-typeahead"
 	handle.ShardMax, startup.ShardMax = 150, 100
 
-	nDirect, nLoop, nMouse, nStart, maxTok := 900, 700, 600, 90, 8
+	nDirect, nLoop, nMouse, nStart, maxTok := 750, 600, 400, 90, 8
 	raceDelays := []time.Duration{0, 45 * time.Millisecond, 49500 * time.Microsecond, 50 * time.Millisecond, 50500 * time.Microsecond, 55 * time.Millisecond}
 	sizeDelays := []time.Duration{0, 99 * time.Millisecond, 101 * time.Millisecond}
 	if cfg.Thorough() {
